@@ -28,4 +28,57 @@ def _install():
     for cls in set([bl.LazyIntSymbolicStr] + [c for c in vars(bl).values() if isinstance(c, type) and issubclass(c, bl.AnySymbolicStr)]):
         if 'expandtabs' in vars(cls) or cls is bl.LazyIntSymbolicStr:
             cls.expandtabs = _expandtabs
+
+    # unicodedata.normalize is C code: a symbolic string would be realised (one arbitrary value per path, nothing decided). Partial model
+    # in traced Python instead: a sample of code points / pairs that each form changes is mapped as the real function maps them, every
+    # other character stays (for those the model says "unchanged", which is what the real function does for almost all text; a
+    # counterexample is replayed concretely before it is reported, so the model cannot cause a false alarm).
+    import unicodedata
+    _real_norm = unicodedata.normalize
+    SAMPLE = [0x212B, 0x2126, 0x0958, 0x0340, 0x0341, 0x037E, 0x0387, 0x2000, 0x2329, 0xF900, 0x00E9, 0x00C5, 0x00FC, 0xFB01, 0x00A0, 0x2460, 0xFF21, 0x1E9B]
+    TABLE = {f: [(k, _real_norm(f, chr(k))) for k in SAMPLE if _real_norm(f, chr(k)) != chr(k)] for f in ("NFC", "NFD", "NFKC", "NFKD")}
+
+    def _normalize(form, unistr):
+        with NoTracing():
+            symbolic = isinstance(unistr, bl.AnySymbolicStr)
+            form_c = form if isinstance(form, str) else None
+        if not symbolic or form_c not in TABLE:
+            return _real_norm(realize(form), realize(unistr))
+        out = ""
+        prev = -1
+        for ch in unistr:
+            o = ord(ch)
+            rep = None
+            for (k, r) in TABLE[form_c]:
+                if o == k:
+                    rep = r
+                    break
+            if rep is None and form_c in ("NFC", "NFKC") and o == 0x301 and prev == 0x65:
+                out = out[:-1] + chr(0xE9)          # e + COMBINING ACUTE ACCENT composes
+                prev = 0xE9
+                continue
+            out = out + (rep if rep is not None else ch)
+            prev = o
+        return out
+    core._PATCH_REGISTRATIONS[unicodedata.normalize] = _normalize
+
+    # same for unicodedata.east_asian_width: exact on four blocks (checked against the real table when the plugin loads), the real
+    # function on the realised character elsewhere
+    _real_eaw = unicodedata.east_asian_width
+    BLOCKS = [(0x4E00, 0x9FFF), (0x3041, 0x3096), (0xAC00, 0xD7A3), (0xFF01, 0xFF60)]
+    BLOCKS = [(lo, hi, _real_eaw(chr(lo))) for (lo, hi) in BLOCKS if len({_real_eaw(chr(c)) for c in range(lo, hi + 1)}) == 1]
+
+    def _eaw(ch):
+        with NoTracing():
+            symbolic = isinstance(ch, bl.AnySymbolicStr)
+        if not symbolic:
+            return _real_eaw(ch)
+        if len(ch) != 1:
+            raise TypeError("need a single Unicode character as parameter")
+        o = ord(ch)
+        for (lo, hi, w) in BLOCKS:
+            if lo <= o <= hi:
+                return w
+        return _real_eaw(realize(ch))
+    core._PATCH_REGISTRATIONS[unicodedata.east_asian_width] = _eaw
 _install()
